@@ -3,6 +3,6 @@ CHECKS = [
           technique="property-based testing (rapid): round trip of generated JSON/msgpack payloads through a real Router, a collector stand-in using the exported Payload API, and a real DirectTransmission; forwarded batches decoded by an independent msgpack decoder and compared as typed values",
           quick=dict(checks=10000, budget_s=45),
           thorough=dict(checks=30000, shards=16, budget_s=420),
-          level_text="Generated payload maps (nested values, every msgpack scalar wire form, binary keys, sampling-key / ID / reserved look-alike key names) through JSON event, msgpack event, JSON batch, msgpack batch, with and without memoization, with and without a peer hop, posted by a real DirectTransmission to a fake Honeycomb; every non-reserved client field compared by type and value, additions limited to reserved meta.* names and configured attributes. Exploration: finds deviations for generated shapes; does not prove absence.",
+          level_text="Generated payload maps (nested values, every msgpack scalar wire form, binary keys, sampling-key / ID / reserved look-alike key names) through JSON event, msgpack event, JSON batch, msgpack batch, with and without memoization, with and without a peer hop, posted by a real DirectTransmission to a fake Honeycomb; every non-reserved client field compared by type and value, additions limited to reserved meta.* names and configured attributes. A concurrent sub-mode (2/4/8 client goroutines x 40 rounds of same-shaped requests, matched by unique id) reaches state shared between requests. Exploration: finds deviations for generated shapes; does not prove absence.",
           level_note="The real InMemCollector is replaced by a stand-in that performs the same exported Payload calls; OTLP ingestion is not covered here (husky owns that translation). Bulk payloads are limited to 2100 fields (thorough)."),
 ]
